@@ -16,7 +16,9 @@ import networkx as nx
 
 from .. import asetab
 from ..cfg import build_cfg
+from ..dataflow import Inliner
 from ..loader import AnalysisError, ClassInfo, FuncInfo, Program, dotted, norm, walk_no_nested
+from ..normalize import flat
 from ..report import Ledger
 
 FILE_RECV = ("self._file", "self.file")
@@ -38,6 +40,12 @@ def _ends_with_newline(e: ast.expr) -> bool | None:
 
 def file_ops(prog: Program, fi: FuncInfo):
     """CFG of ``fi`` annotated with file operations: node id -> list of (op, call, detail)."""
+    fi = flat(prog, fi, fi.cls)
+    inl = Inliner(fi.node)
+
+    def rtxt(e):
+        return norm(inl.inline(e))
+
     cfg = build_cfg(fi.node)
     simple = nx.DiGraph(cfg.g)
     in_loop = set()
@@ -51,10 +59,10 @@ def file_ops(prog: Program, fi: FuncInfo):
         root = node.ast if node.kind != "iter" else node.ast.iter
         found = []
         for c in (n for n in walk_no_nested(root) if isinstance(n, ast.Call)):
-            if isinstance(c.func, ast.Attribute) and norm(c.func.value) in FILE_RECV and c.func.attr in OPS:
+            if isinstance(c.func, ast.Attribute) and rtxt(c.func.value) in FILE_RECV and c.func.attr in OPS:
                 found.append((c.func.attr, c, ""))
                 continue
-            passes_file = any(norm(a) in FILE_RECV for a in c.args) or any(norm(k.value) in FILE_RECV for k in c.keywords)
+            passes_file = any(rtxt(a) in FILE_RECV for a in c.args) or any(rtxt(k.value) in FILE_RECV for k in c.keywords)
             if passes_file:
                 full = prog.resolve_dotted(fi.module, dotted(c.func) or "")
                 if full.endswith("jsonio.write_json"):
